@@ -12,7 +12,7 @@ _NOTE = (
 CLAIMED = {
     "C03": {
         "engine": "E1 syncorder",
-        "technique": "static analysis: MIR must-complete-before / cannot-start-before ordering over the sync protocol (dominance in the Ok-pruned CFG + spawn/join strand model); provenance of written page numbers (copy-on-write)",
+        "technique": "static analysis: MIR must-complete-before / cannot-start-before ordering over the sync protocol (dominance in the Ok-pruned CFG + spawn/join strand model); provenance of written page numbers (copy-on-write); must-pass rules over the redo arms (each entry re-applied, every field of an Update entry applied to the page buffer)",
         "text": "Decides the commit-protocol ordering skeleton for every path: every pre-meta write (wal, ln, bbn) is complete and result-checked before Meta::write; hash-table writes, WAL truncation and rollback-log pruning start only after it; WAL redo is gated by sequence-number equality and the WAL carries the same sequence number as the meta page; every bucket change and data page of the post-meta writeout has a WAL entry for the same bucket between reset and finalize; ln/bbn/free-list page writers obtain page numbers only from the allocator (no page of the previous committed state is overwritten before the switch-over) and the value files are resized at one site. That is the part of crash atomicity visible in the shape of the code; data-level recovery correctness is not decided.",
         "design_ref": "DESIGN.md 4 (E1), 5 (C03)",
         "note": _NOTE,
@@ -33,14 +33,14 @@ CLAIMED = {
     },
     "C09": {
         "engine": "E3 guardfx (+E1 order)",
-        "technique": "static analysis: guard-dominates-effect over MIR CFG, constant-store dataflow on SessionParams, post-meta ordering of log pruning, set/consume pairing of the pending truncation, who-may-mutate ownership of the in-memory log, overlay-hit-is-final branch rule, variant-inspection rule for the delta codec (encode inspects / decode can build both variants)",
+        "technique": "static analysis: guard-dominates-effect over MIR CFG, constant-store dataflow on SessionParams, post-meta ordering of log pruning, set/consume pairing of the pending truncation, who-may-mutate ownership of the in-memory log, overlay-hit-is-final branch rule, variant-inspection rule for the delta codec (encode inspects / decode can build both variants), must-pass rule for the rollback's own commit after the truncation",
         "text": "Three clauses: an unservable rollback returns before any mutation; the rollback's own commit never records a delta nor takes the global guard; log pruning/truncation happens only after the meta switch-over and the pending truncation is consumed where it is applied; the in-memory log is mutated only by one-record push/pop operations of its owner type, each reachable only from its listed owners. Restored values are not decided.",
         "design_ref": "DESIGN.md 4 (E3), 5 (C09)",
         "note": _NOTE,
     },
     "C11": {
         "engine": "E3 guardfx (+ statusdom, shadow, mergefront)",
-        "technique": "static analysis: guard-dominates-effect over MIR CFG of the overlay commit entry points; finite-domain evaluation (MIR interpretation over the three status values) of the chain-completeness predicate; who-may-store on the status word; overlay-hit-is-final branch rule; must-pass-a-filter path rule for stored items of the leaf fetch (every next() -> LeafData path passes a call on the overlay deletions and the item); forward frontier dataflow (value numbering over MIR) for the completeness of the stored-leaves/overlay merge",
+        "technique": "static analysis: guard-dominates-effect over MIR CFG of the overlay commit entry points; finite-domain evaluation (MIR interpretation over the three status values) of the chain-completeness predicate; who-may-store on the status word; overlay-hit-is-final branch rule; must-pass-a-filter path rule for stored items of the leaf fetch (every next() -> LeafData path passes a call on the overlay deletions and the item); element-preserving-adapter rule for the updated page set; forward frontier dataflow (value numbering over MIR) for the completeness of the stored-leaves/overlay merge",
         "text": "Refusal clause and three structural clauses of the read path: committing an overlay is gated by the parent-marker, lock and previous-root checks before any effect, including the committed-status flip that descendants consult; LiveOverlay::new refuses a chain exactly when the oldest supplied ancestor's parent is not COMMITTED (decided by enumerating the status domain); the status word only moves LIVE->DROPPED or ->COMMITTED; where the overlay chain is consulted a hit (including a delete) is final; the elided-subtree reconstruction copies or supersedes every stored leaf on every path. Overlay/commit behavioural equivalence is not decided.",
         "design_ref": "DESIGN.md 4 (E3), 5 (C11)",
         "note": _NOTE,
